@@ -200,6 +200,8 @@ pub struct LibRecord {
     pub formats: Vec<(String, String)>,
     pub diag_plain: String,
     pub diag_color_digest: String,
+    /// lines in the `symbols` listing (hash-order-sensitive items)
+    pub symbol_count: usize,
 }
 
 #[derive(Clone, Debug, PartialEq, Eq, Serialize, Deserialize)]
@@ -378,7 +380,12 @@ fn lib_pass(job: &Job, faults: &[Fault], env: &ExecEnv) -> LibRecord {
                         if let Ok(fmt) = driver::parse_output_format(&mut r2, f) {
                             let res = catch(|| driver::format_output(&fs, decls, defs, output, fmt));
                             match res {
-                                Ok(bytes) => lib.formats.push((f.to_string(), hex128(digest128(&bytes)))),
+                                Ok(bytes) => {
+                                    if *f == "symbols" {
+                                        lib.symbol_count = bytes.iter().filter(|b| **b == b'\n').count();
+                                    }
+                                    lib.formats.push((f.to_string(), hex128(digest128(&bytes))))
+                                }
                                 Err(p) => lib.formats.push((f.to_string(), format!("PANIC {}", p))),
                             }
                         }
